@@ -424,7 +424,7 @@ void ctx_touch(const void* addr)
     OpRec* o = cur();
     if (!o) return;
     ++o->ctx_touches;
-    bool foreign = (addr != o->ctx_addr);
+    bool foreign = (o->ctx_addr != nullptr && addr != o->ctx_addr);
     if (foreign) ++o->ctx_foreign;
     log_event(K_CTX, foreign ? 1 : 0, 0);
 }
